@@ -420,7 +420,10 @@ class FieldValueComponentDateTime(FieldValueComponentKeyValueBase):
         parser.parse_date_time('value')
 
     def _get_value_as_simple_type(self):
-        return self.value.strftime('%a, %d %b %Y %H:%M:%S GMT')
+        composer = ComposerText()
+        composer.compose_date_time(self.value, '%a, %d %b %Y %H:%M:%S GMT')
+
+        return six.ensure_text(bytes(composer.composed), 'ascii')
 
 
 @attr.s
